@@ -96,6 +96,11 @@ CHECKS = {
             'Every accepted input of the streams has each returned module compiled by CPython; a refusal is classified from the emitted text (detectors for the listed literal/statement shapes, otherwise CPython message + shape of the offending line) so that a printer regression gets a signature of its own; the first witness of each signature is shrunk on the Mamba side.',
             'CPython 3.11 compile() defines valid Python 3. Most fuzz inputs are rejected by the pipeline; the floor demands >= 2% accepted.',
             'DESIGN.md section 4, C02'),
+    'C04': ('exploration',
+            'runtime monitor with CPython as oracle: whatever the real pipeline accepts is executed and must not end with TypeError / AttributeError / NameError / UnboundLocalError; workload aimed by the typing sweeps',
+            'Operator x operand-type sweep (14 binary and 4 unary operators x 8 operand types, as literals and as declared variables, at top level and inside a function), misuse cells (member of another class, renamed function / variable / field / method / class, non-callable, non-indexable ...), every violating single-point edit of the C05/C06/C07/C09 sweeps (wrong argument / initialiser / receiver / return value, dropped or added argument, nullable source, undefined use) placed on an executed path with callee bodies that use their arguments, plus well-typed sweep and random programs.',
+            'Every edit stands on an executed path; exceptions outside the four classes are fine. No reference model decides anything: CPython does.',
+            'DESIGN.md section 4, C04'),
 }
 
 NOT_YET = 'monitor not built yet in this revision (construction order: DESIGN.md section 9); not claimed rather than claimed weakly'
